@@ -547,7 +547,8 @@ class SO3(SMPose):
 
         :seealso: :func:`~spatialmath.pose3d.SE3.angvec`, :func:`~spatialmath.base.transforms3d.angvec2r`
         """
-        assert base.isvector(w, 3), 'w must be a 3-vector'
+        if not (base.isvector(w, 3)):
+            raise ValueError('w must be a 3-vector')
         w = base.getvector(w)
         theta = base.norm(w)
         return cls(base.angvec2r(theta, w), check=False)
@@ -1170,7 +1171,8 @@ class SE3(SO3):
 
         :seealso: :func:`~spatialmath.pose3d.SE3.AngVec`, :func:`~spatialmath.base.transforms3d.angvec2tr`
         """
-        assert base.isvector(w, 3), 'w must be a 3-vector'
+        if not (base.isvector(w, 3)):
+            raise ValueError('w must be a 3-vector')
         w = base.getvector(w)
         theta = base.norm(w)
         return cls(base.angvec2tr(theta, w), check=False)
